@@ -118,8 +118,7 @@ def run(pid, tier, seed, replay):
         m["opts"] = [dict(o, start=st) for o in m["opts"] for st in ("", ids[-1])]
         fam.append(m)
     consts = {"NI": 1, "MaxCalls": 2, "MaxFails": 0, "MaxActs": 2}
-    ec.mc_run(chk, fam, consts, required=("MCWrite", "MCAssign", "MCNew", "MCCall"), label="model-field family")
-    hs = ec.hist_scenarios(chk, fam, consts, limit=1200 if quick else 15000)
+    _cov, hs = ec.mc_run(chk, fam, consts, required=("MCWrite", "MCAssign", "MCNew", "MCCall"), label="model-field family", hist_limit=1200 if quick else 15000)
     ec.run_validate(chk, hs, "model field: spec-behaviour replay", shards=4 if quick else 12, featurize=featurize)
     ec.run_validate(chk, [scenario(rng) for _ in range(2000 if quick else 30000)], "model field: random histories",
                     shards=4 if quick else 12, featurize=featurize)
